@@ -53,6 +53,9 @@ type contract struct {
 	Dir       int // 0 none, 1 incoming, 2 outgoing
 	State     int // 0 open, 1 completed, 2 refunded
 	Tmpl      string
+	// Gone: closed before a restart from genesis; the export carries open contracts only, so the record of a
+	// closed one does not exist any more (its id is free again)
+	Gone bool
 }
 
 type window struct {
@@ -101,7 +104,7 @@ func (m *model) Canon() []byte {
 	cs := append([]contract{}, m.cs...)
 	sort.Slice(cs, func(i, j int) bool { return cs[i].ID < cs[j].ID })
 	for _, c := range cs {
-		fmt.Fprintf(&b, "%s:%d;", c.ID, c.State)
+		fmt.Fprintf(&b, "%s:%d%v;", c.ID, c.State, c.Gone)
 	}
 	for _, k := range []string{bnb, eth} {
 		fmt.Fprintf(&b, "%v%v", m.delisted[k], m.relisted[k])
@@ -255,6 +258,9 @@ func (d *Driver) Enabled(e *mc.Env, s *mc.State) []mc.Op {
 	}
 	minExp := int64(0)
 	for i, c := range m.cs {
+		if c.Gone {
+			continue
+		}
 		other := secrets[1-c.Secret]
 		ops = append(ops, mc.Op{Name: fmt.Sprintf("claim(%s,right)", c.Tmpl), Data: opData{kind: "claim", idx: i, secret: secrets[c.Secret], why: "right"}})
 		ops = append(ops, mc.Op{Name: fmt.Sprintf("claim(%s,wrong)", c.Tmpl), Data: opData{kind: "claim", idx: i, secret: other, why: "wrong-secret"}})
@@ -270,6 +276,17 @@ func (d *Driver) Enabled(e *mc.Env, s *mc.State) []mc.Op {
 		ops = append(ops, mc.Op{Name: "to-expiry-1", Data: opData{kind: "jump", idx: int(minExp - 1 - s.Ctx.BlockHeight())}})
 	}
 	return ops
+}
+
+// Restarted (mc.RestartAware): the chain was restarted from its own exported genesis, which carries the open
+// contracts only.
+func (d *Driver) Restarted(e *mc.Env, s *mc.State) {
+	m := s.Model.(*model)
+	for i := range m.cs {
+		if m.cs[i].State != 0 {
+			m.cs[i].Gone = true
+		}
+	}
 }
 
 func (d *Driver) universe() mc.Universe {
@@ -372,7 +389,7 @@ func (d *Driver) apply(e *mc.Env, s *mc.State, op mc.Op) []mc.Finding {
 		id := hex.EncodeToString(tmhash.Sum(append(append(append(append([]byte{}, hl...), mc.Addr(t.sender)...), mc.Addr(t.to)...), []byte(t.amount.Sort().String())...)))
 		exists := false
 		for _, c := range m.cs {
-			if c.ID == id {
+			if c.ID == id && !c.Gone {
 				exists = true
 			}
 		}
@@ -522,6 +539,9 @@ func (d *Driver) check(e *mc.Env, s *mc.State) []mc.Finding {
 	outgoing := map[string]*big.Int{bnb: new(big.Int), eth: new(big.Int)}
 	nOpen := 0
 	for _, c := range m.cs {
+		if c.Gone {
+			continue
+		}
 		r, err := e.HTLC.HTLC(s.Ctx, &htlctypes.QueryHTLCRequest{Id: c.ID})
 		if err != nil || r.Htlc == nil {
 			fs = append(fs, mc.F("C03/contract-vanished", "contract %s (%s): %v", c.Tmpl, c.ID, err))
@@ -605,6 +625,11 @@ func Parts(mode string) func() []mc.Part {
 			// heights are the keys of the expiry queue: this chain starts at 204, so contracts expire at 254..257
 			mc.ExplorePart("plain-at-height-204", New(Variant{Name: "plain-at-height-204", Mode: mode, InitialHeight: 204}), 6, 8, false, rule),
 		}
+		// a history may contain a restart of the chain from its own exported genesis: open contracts must still
+		// expire, be claimable and be counted afterwards (closed ones are dropped by the export, by design)
+		ps = append(ps,
+			mc.ExplorePart("plain-restarting", mc.WithRestart(New(Variant{Name: "plain-restarting", Mode: mode}), "htlc"), 6, 8, false, rule),
+			mc.ExplorePart("cross-chain-restarting", mc.WithRestart(New(Variant{Name: "cross-chain-restarting", Mode: mode, Cross: true}), "htlc"), 5, 6, false, rule))
 		if mode == "C04" {
 			ps = append(ps, GenesisAssertionPart())
 		}
